@@ -188,6 +188,13 @@ class TcpConnection(object):
     def getSendBufferSize(self):
         return len(self.__writeBuffer)
 
+    def __isGone(self, sock):
+        # The connection this event belongs to has been closed meanwhile. The disconnect callback
+        # may already have dialled again (the transport does): then the state is CONNECTING
+        # again, but with another socket (possibly under the same descriptor number), which
+        # this event says nothing about.
+        return self.__state == CONNECTION_STATE.DISCONNECTED or self.__socket is not sock
+
     def __processConnection(self, descr, eventType):
         poller = self.__poller
         if descr != self.__fileno:
@@ -198,8 +205,9 @@ class TcpConnection(object):
             self.disconnect()
             return
 
+        sock = self.__socket
         self.__processConnectionTimeout()
-        if self.state == CONNECTION_STATE.DISCONNECTED:
+        if self.__isGone(sock):
             return
 
         if eventType & POLL_EVENT_TYPE.READ or eventType & POLL_EVENT_TYPE.WRITE:
@@ -210,7 +218,7 @@ class TcpConnection(object):
             if self.__state == CONNECTION_STATE.CONNECTING:
                 if self.__onConnected is not None:
                     self.__onConnected()
-                if self.__state == CONNECTION_STATE.DISCONNECTED:
+                if self.__isGone(sock):
                     return
                 self.__state = CONNECTION_STATE.CONNECTED
                 self.__lastReadTime = monotonicTime()
@@ -218,7 +226,7 @@ class TcpConnection(object):
 
         if eventType & POLL_EVENT_TYPE.WRITE:
             self.__trySendBuffer()
-            if self.__state == CONNECTION_STATE.DISCONNECTED:
+            if self.__isGone(sock):
                 return
             event = POLL_EVENT_TYPE.READ | POLL_EVENT_TYPE.ERROR
             if len(self.__writeBuffer) > 0:
@@ -227,7 +235,7 @@ class TcpConnection(object):
 
         if eventType & POLL_EVENT_TYPE.READ:
             self.__tryReadBuffer()
-            if self.__state == CONNECTION_STATE.DISCONNECTED:
+            if self.__isGone(sock):
                 return
 
             while True:
@@ -236,7 +244,7 @@ class TcpConnection(object):
                     break
                 if self.__onMessageReceived is not None:
                     self.__onMessageReceived(message)
-                if self.__state == CONNECTION_STATE.DISCONNECTED:
+                if self.__isGone(sock):
                     return
 
     def __processConnectionTimeout(self):
